@@ -22,8 +22,9 @@ import (
 // blockRef is what the builder produced for one height: the reference every importer must
 // reproduce.
 type blockRef struct {
-	detained  *big.Int // Σ value detained by this block's applied create/deposit/delegation-add transactions
-	refundCap *big.Int // Σ gasUsed*price/2 over applied calls that earn an EVM gas refund (upper bound of what refunds are worth)
+	detained       *big.Int // Σ value detained by this block's applied create/deposit/delegation-add transactions
+	stakingApplied bool     // the block contains a successfully applied staking-module transaction
+	refundCap      *big.Int // Σ gasUsed*price/2 over applied calls that earn an EVM gas refund (upper bound of what refunds are worth)
 
 	tainted  string // non-empty: executing this block sets a state database error (see sim.taintCheck)
 	blk      *types.Block
@@ -217,6 +218,7 @@ func (s *sim) observeBuilt(n int, blk *types.Block) *blockRef {
 	F := s.sc.F
 	periodEnd := (uint64(n)+1)%F == 0
 	detained, refundCap := new(big.Int), new(big.Int)
+	stakingApplied := false
 	for i, tx := range blk.Transactions() {
 		rc := rcs[i]
 		it := s.intents[tx.Hash()]
@@ -231,6 +233,9 @@ func (s *sim) observeBuilt(n int, blk *types.Block) *blockRef {
 			r.Count("tx."+kind+".ok", 1)
 		} else {
 			r.Count("tx."+kind+".failed", 1)
+		}
+		if ok && tx.To() != nil && *tx.To() == stakingAddr {
+			stakingApplied = true
 		}
 		if ok && it != nil && it.refund {
 			fee := new(big.Int).Mul(new(big.Int).SetUint64(rc.GasUsed), tx.GasPrice())
@@ -280,7 +285,7 @@ func (s *sim) observeBuilt(n int, blk *types.Block) *blockRef {
 	if tainted == "" {
 		r.Logf("  state=%s receipts=%s accounts=%d validators=%d", view.digest, dg, len(view.accounts), len(view.rawVals))
 	}
-	return &blockRef{blk: blk, view: view, rcDigest: dg, rcText: lines, tainted: tainted, detained: detained, refundCap: refundCap}
+	return &blockRef{blk: blk, view: view, rcDigest: dg, rcText: lines, tainted: tainted, detained: detained, refundCap: refundCap, stakingApplied: stakingApplied}
 }
 
 func mustSender(tx *types.Transaction) common.Address {
@@ -324,7 +329,8 @@ func (s *sim) reexec(blk *types.Block) (roots string, dbErr error, err error) {
 		_, err = chain.Processor().Process(yp, blk, st, *chain.GetVMConfig(), local.FakeRecorder())
 	})
 	if !ok {
-		return "", nil, fmt.Errorf("died in logging.Crit")
+		s.dead = true
+		return "", nil, fmt.Errorf("died in logging.Crit or panicked")
 	}
 	if err != nil {
 		return "", nil, err
